@@ -813,10 +813,50 @@ def _t8(repo, L):
                         if d in ("parse_agp", "parse_tpf", "format_agp", "format_tpf"):
                             called.append(d)
             inst = f"{proc.short}[{iv}->{ov}]"
+            raises = r["path"].status == "raise"
+            if not raises and "XXX" in (iv, ov):
+                # a format check delegated to a helper (`check_output_format(out_fmt)`): follow it one level with the probe's
+                # values; a helper that raises on every path ends the run before anything after it
+                for e in r["path"].events:
+                    if e.kind != "stmt" or raises:
+                        continue
+                    for c in [x for x in [e.node, *walk_shallow(e.node)] if isinstance(x, ast.Call)]:
+                        fn_ = repo.resolve_call(c, proc)[0]
+                        if fn_ is None or dotted(c.func) in ("parse_agp", "parse_tpf", "format_agp", "format_tpf"):
+                            continue
+                        if not any(isinstance(a_, ast.Name) and a_.id in (in_p, out_p) for a_ in [*c.args, *[k.value for k in c.keywords]]):
+                            continue
+                        hp = fn_.params()
+                        henv = {}
+                        for i_, a_ in enumerate(c.args):
+                            if i_ < len(hp) and isinstance(a_, ast.Name) and a_.id in env:
+                                henv[hp[i_]] = env[a_.id]
+                        for k_ in c.keywords:
+                            if k_.arg in hp and isinstance(k_.value, ast.Name) and k_.value.id in env:
+                                henv[k_.arg] = env[k_.value.id]
+                        from ..finite import fold_env as _fe, module_consts as _mc
+
+                        hres = run_paths(fn_.node.body, {**dict(_mc(fn_.module)), **henv}, loop_iters=(0,))
+                        if hres and all(h_["path"].status == "raise" and not h_["unknown_conds"] for h_ in hres):
+                            raises = True
+                            # calls made after the helper do not happen
+                            cut = [d_ for d_ in called]
+                            called = []
+                            for e2 in r["path"].events:
+                                if e2 is e:
+                                    break
+                                if e2.kind == "stmt":
+                                    for c2 in [x for x in [e2.node, *walk_shallow(e2.node)] if isinstance(x, ast.Call)]:
+                                        if dotted(c2.func) in ("parse_agp", "parse_tpf", "format_agp", "format_tpf"):
+                                            called.append(dotted(c2.func))
+                            break
+                        if any(h_["path"].status == "raise" or h_["unknown_conds"] for h_ in hres):
+                            raise AnalysisError(f"{proc.short}: whether the format check delegated to {fn_.short} rejects ({iv},{ov}) is not decided by constant propagation: no verdict")
             if iv == "XXX":
-                L.check(r["path"].status == "raise" and not called, "T8", inst, "unknown input format raises", f"input format {iv!r}: path {'raises' if r['path'].status == 'raise' else 'does not raise'} after calling {called}", proc.loc())
+                L.check(raises and not called, "T8", inst, "unknown input format raises", f"input format {iv!r}: path {'raises' if raises else 'does not raise'} after calling {called}", proc.loc())
             elif ov == "XXX":
-                L.check(r["path"].status == "raise" and called == [want_in[iv]], "T8", inst, "unknown output format raises", f"output format {ov!r} does not end in an error (called {called})", proc.loc())
+                # rejecting the output format before the input is parsed is as good as after
+                L.check(raises and called in ([want_in[iv]], []), "T8", inst, "unknown output format raises", f"output format {ov!r} does not end in an error (called {called})", proc.loc())
             else:
                 L.check(called == [want_in[iv], want_out[ov]], "T8", inst, f"{want_in[iv]} then {want_out[ov]}", f"formats ({iv} -> {ov}) call {called}", proc.loc())
 
